@@ -197,7 +197,7 @@ BYTES_MODELS = [
     (r"slice::<impl \[u8\]>::copy_within::<", m_copy_within),
     (r"slice::<impl \[u8\]>::len$|Vec::<u8>::len$", m_len),
     (r"<&\[u8\] as TryInto<\[u8; \d+\]>>::try_into$", m_try_into),
-    (r"Result::<\[u8; \d+\], TryFromSliceError>::unwrap$", m_unwrap),
+    (r"(?:Result|Option)::<.*>::(?:unwrap|expect)$", m_unwrap),
     (r"^<&?\[u8\] as (PartialOrd|PartialEq|Ord)(<.*>)?>::(lt|le|gt|ge|eq|ne|cmp|partial_cmp)$", m_slice_cmp),
     (r"slice::<impl \[u8\]>::to_vec$", m_to_vec),
     (r"num::<impl u\d+>::checked_shl$", m_checked_shl),
